@@ -94,7 +94,10 @@ Qed.
 (* ------------------------------------------------------------------ *)
 (* the boundary test feedRtpPacket applies to a packet in state s *)
 Definition rtp_boundary_at (s : gstate) (raw : bytes) : bool :=
-  match g_sdp s with None => false | Some _ => rtp_is_boundary (g_vcodec s) raw end.
+  match rtp_pt raw with
+  | None => false
+  | Some pt => match g_sdp s with None => false | Some _ => rtp_is_boundary true (g_vcodec s) pt raw end
+  end.
 
 (* what an event does to an RTSP session that is playing *)
 Definition rtsp_after (cf : cfg) (s : gstate) (e : ev) (c : consumer) : consumer :=
@@ -139,7 +142,7 @@ Proof.
     unfold sdp_step. rewrite Hfr. now rewrite Bool.andb_false_r.
   - unfold set_subs. cbn [g_subs]. rewrite find_map_id by (intro; apply play_step_id). rewrite Hfind. cbn [option_map].
     unfold play_step. rewrite Hfr. now rewrite Bool.andb_false_r, Bool.andb_false_l.
-  - unfold feed_rtp, rtp_boundary_at. cbn [g_subs]. destruct (rtp_pt raw) as [pt|]; [|exact Hfind].
+  - unfold feed_rtp, feed_rtp_gen, rtp_boundary_at. cbn [g_subs]. destruct (rtp_pt raw) as [pt|]; [|exact Hfind].
     rewrite find_map_id by (intro; apply rtsp_step_id). rewrite Hfind. reflexivity.
   - destruct Hstay.
 Qed.
@@ -326,6 +329,76 @@ Proof.
 Qed.
 
 (* ------------------------------------------------------------------ *)
+(* F-34: the gate opens only on a packet of the VIDEO track *)
+
+(* with a codec lal can classify, a boundary is a video-track packet with a positive verdict *)
+Lemma boundary_is_video_gop_start v pt raw :
+  v <> VOther -> rtp_is_boundary true v pt raw = true -> rtp_is_video pt = true /\ rtp_verdict v raw = true.
+Proof. intros Hv H. destruct v; [| |congruence]; cbn [rtp_is_boundary negb orb] in H; now apply andb_prop in H. Qed.
+
+Lemma boundary_at_inv s raw : rtp_boundary_at s raw = true ->
+  exists pt, rtp_pt raw = Some pt /\ g_sdp s <> None /\
+             (g_vcodec s <> VOther -> rtp_is_video pt = true /\ rtp_verdict (g_vcodec s) raw = true).
+Proof.
+  unfold rtp_boundary_at. destruct (rtp_pt raw) as [pt|]; [|discriminate]. destruct (g_sdp s); [|discriminate].
+  intro H. exists pt. split; [reflexivity|]. split; [discriminate|]. intro Hv. now apply boundary_is_video_gop_start.
+Qed.
+
+(* ... so no audio packet is one, whatever its bytes *)
+Lemma audio_never_boundary s raw pt :
+  rtp_pt raw = Some pt -> rtp_is_video pt = false -> g_vcodec s <> VOther -> rtp_boundary_at s raw = false.
+Proof.
+  intros Hpt Ha Hv. unfold rtp_boundary_at. rewrite Hpt. destruct (g_sdp s); [|reflexivity].
+  destruct (g_vcodec s); [| |congruence]; cbn [rtp_is_boundary negb orb]; now rewrite Ha.
+Qed.
+
+(* every continuation either has no GOP start at all or splits at its first one *)
+Lemma quiet_or_opens cf : forall h s,
+  quiet cf s h \/
+  exists h1 raw h2, h = h1 ++ EvRtp raw :: h2 /\ quiet cf s h1 /\ rtp_boundary_at (fold_left (step cf) h1 s) raw = true.
+Proof.
+  induction h as [|e h IH]; intro s; [left; exact I|].
+  assert (Hcase : (exists raw, e = EvRtp raw /\ rtp_boundary_at s raw = true) \/
+                  match e with EvRtp raw => rtp_boundary_at s raw = false | _ => True end).
+  { destruct e; try (right; exact I). destruct (rtp_boundary_at s raw) eqn:E; [left; now exists raw|right; reflexivity]. }
+  destruct Hcase as [(raw & He & Hb)|Hq].
+  - right. exists [], raw, h. subst e. repeat split; assumption.
+  - destruct (IH (step cf s e)) as [Hq2|(h1 & raw & h2 & Hh & Hq1 & Hb)].
+    + left. split; assumption.
+    + right. exists (e :: h1), raw, h2. subst h. repeat split; assumption.
+Qed.
+
+(* For EVERY history: a session that plays and waits has either received nothing
+   at all - audio included - or what it received begins with the first packet
+   that passed the gate; and when the SDP in force announces a codec lal can
+   classify, that packet belongs to the video track and is a GOP start. *)
+Theorem rtsp_first_received cf h0 h id c :
+  cf_rtsp_wait cf = true ->
+  find_sub (run cf h0) id = Some c -> c_kind c = KRtsp -> c_fresh c = false -> c_wait c = true ->
+  attached id KRtsp h ->
+  find_sub (run cf (h0 ++ h)) id = Some c \/
+  exists h1 raw pt h2,
+    h = h1 ++ EvRtp raw :: h2 /\ quiet cf (run cf h0) h1 /\ rtp_pt raw = Some pt /\
+    let s1 := run cf (h0 ++ h1) in
+    g_sdp s1 <> None /\
+    (g_vcodec s1 <> VOther ->
+       rtp_is_video pt = true /\ rtp_verdict (g_vcodec s1) raw = true /\ rtp_unit (g_next_rtp s1) raw = [LRtp (g_next_rtp s1)]) /\
+    exists c', find_sub (run cf (h0 ++ h)) id = Some c' /\ rtsp_admitted cf c' = true /\
+               c_out c' = c_out c ++ rtp_unit (g_next_rtp s1) raw ++ rtp_units (S (g_next_rtp s1)) h2.
+Proof.
+  intros Hcfg Hfind Hk Hf Hw Hatt.
+  destruct (quiet_or_opens cf h (run cf h0)) as [Hq|(h1 & raw & h2 & Hh & Hq & Hb)].
+  - left. rewrite run_app. now apply (rtsp_history_waiting cf Hcfg h (run cf h0) id c).
+  - right. rewrite <- run_app in Hb. destruct (boundary_at_inv _ _ Hb) as (pt & Hpt & Hsdp & Hvid).
+    exists h1, raw, pt, h2. split; [exact Hh|]. split; [exact Hq|]. split; [exact Hpt|]. cbv zeta.
+    split; [exact Hsdp|]. split.
+    + intro Hv. destruct (Hvid Hv) as [V1 V2]. split; [exact V1|]. split; [exact V2|].
+      unfold rtp_unit. rewrite Hpt. unfold rtp_is_video, rtp_video_pt in V1. apply N.eqb_eq in V1. subst pt. reflexivity.
+    + subst h. destruct (rtsp_gate_run cf h0 h1 raw pt h2 id c Hcfg Hfind Hk Hf Hw Hatt Hq Hpt Hb) as (c' & F & A & O).
+      exists c'. split; [exact F|]. split; [exact A|]. exact O.
+Qed.
+
+(* ------------------------------------------------------------------ *)
 (* the SDP comes first: whatever an RTSP session has received starts with one
    DESCRIBE response carrying an SDP, followed only by RTP packets *)
 
@@ -422,7 +495,7 @@ Proof.
     apply Forall_map_pres; [|exact Hs]. intros; now apply rtsp_ok_sdp.
   - unfold rtsp_inv, sdp_ok, set_subs. cbn [g_subs g_gone g_sdp]. split; [|split; [exact Hg|exact Hd]].
     apply Forall_map_pres; [|exact Hs]. intros; now apply rtsp_ok_play.
-  - unfold feed_rtp, rtsp_inv, sdp_ok. cbn [g_subs g_gone g_sdp]. split; [|split; [exact Hg|exact Hd]].
+  - unfold feed_rtp, feed_rtp_gen, rtsp_inv, sdp_ok. cbn [g_subs g_gone g_sdp]. split; [|split; [exact Hg|exact Hd]].
     destruct (rtp_pt raw); [|exact Hs]. apply Forall_map_pres; [|exact Hs]. intros; now apply rtsp_ok_rtp.
   - unfold rtsp_inv, sdp_ok. cbn [g_subs g_gone g_sdp]. split; [constructor|]. split; [|exact I]. apply Forall_app. now split.
 Qed.
